@@ -194,7 +194,7 @@ func errClassOf(rec string) string {
 func clauseOf(v *Verdict) string {
 	switch v.Kind {
 	case "panic":
-		return "violates C01 'malformed, contradictory, cyclic or incomplete YANG is reported through returned errors, never through a panic' (panic recovered in the worker child)"
+		return "violates C01 'reported through returned errors, never through a panic'"
 	case "died":
 		if strings.Contains(v.Msg, "stack overflow") || strings.Contains(v.Msg, "stack exceeds") {
 			return "violates C01 'never through ... a fatal runtime error, unbounded recursion' (stack overflow: the worker child died; the history was re-run alone to name it)"
@@ -204,9 +204,9 @@ func clauseOf(v *Verdict) string {
 		}
 		return "violates C01 'never through a panic, a fatal runtime error ...' (the worker child died)"
 	case "resource":
-		return "violates C01 'every call returns in bounded time' (processor-time / memory limit of the history exceeded in the worker child)"
+		return "violates C01 'every call returns in bounded time ... never a hang' (limit of the history exceeded in the worker child)"
 	case "timeout":
-		return "violates C01 'every call returns in bounded time ... never a hang' (no answer within the bound, confirmed by a second run alone with four times the bound)"
+		return "violates C01 'every call returns in bounded time ... never a hang' (confirmed by a second run alone with four times the bound)"
 	}
 	return "runner obligation"
 }
@@ -647,7 +647,8 @@ func main() {
 		"limits per history, enforced in the crash-isolated child by a watchdog (a history that exceeds one is a `resource` violation with the input as replay): "+
 			"processor time 10 s + 1 ms per input byte (user + system time of the child, so independent of machine load), memory held 1 GiB + 4 KiB per input byte "+
 			"(runtime.MemStats Sys - HeapReleased, sampled every 25 ms; GOMEMLIMIT=768MiB, address space capped at 4 GiB, max stack 512 MiB); "+
-			"in the parent: wall clock "+boundText+" (a timeout is a `hang` violation after a second run with four times the budget); empty working directory",
+			"in the parent: wall clock "+boundText+" (a timeout is a `hang` violation after a second run with four times the budget; at 90% of the wall budget the child answers by itself with the phase, "+
+			"the accessor call under way and the stack of the history's goroutine, so a hang inside Process or inside a read-back call is named); empty working directory",
 		"amplifier family (deterministic, in the depth stream): for every kind of reference the library follows, k = 10, 20, 40, 80 levels each referring to the previous level "+
 			"b = 2, 3 times, clean and with one fault at the bottom; the measured processor time and memory of every case are listed under distribution.amplifier_cases "+
 			"(on the repaired tree all grow polynomially; families whose legal result has b^k nodes run only at levels with b^k <= 5000)",
@@ -657,7 +658,17 @@ func main() {
 			"because what else is reported after a failed link depends on partially linked state outside the identity/type models")
 	res.Rule = "histories = sequences of source texts loaded (errors ignored) into one Modules, Process, ToEntry of every module and submodule, full walk " +
 		"(Dir, RPC input/output) calling GetErrors, Path, ReadOnly, Namespace, InstantiatingModule, DefaultValues, Find (own path, bogus, relative), Print, and on every " +
-		"resolved type (recursively over union members) Range/Length String and Validate, enum and bit tables; " +
+		"resolved type (recursively over union members) Range/Length String and Validate, enum and bit tables; then the read-back by reflection (readback.go): every exported " +
+		"method of *Entry, *YangType, *EnumType, *Value, *Statement, the range types and every Node implementer that is reachable from what came back - listed at run time, so a new " +
+		"accessor is called without the runner being edited; methods without parameters, and with parameters that are synthesised: Find(path) with the path pool of the entry (own path, " +
+		"specials, the bracket shapes [k=1] [ ] ][ ]k[ [[ ]] [] nested and unbalanced after every step, as a step of their own, in front, after the name alone, relative forms), other string " +
+		"parameters with the names the receiver holds and strangers, io.Writer (Print, Write), bool, int64 / uint64, the receiver's own type (Equal, Contains, Less); the tree-changing " +
+		"methods Augment / ApplyDeviate / FixChoice / Set / SetNext / Sort are on a deny list, index parameters (Less, Swap) are not synthesised; the list of methods met with called / why not " +
+		"is in distribution.readback_accessors - on every entry reachable after Process, errors or not: the children and the entries kept beside them (Augments, Augmented, " +
+		"Deviations[i].Entry and the entries of their Deviate maps, Uses[i].Grouping, any entry-typed field by reflection), ToEntry of every grouping node of the AST, the AST nodes down to every Value and Statement; " +
+		"bounds of the read-back's own work: all accessors on the first 5000 entries of the trees and the first 2500 beside them where the heavy rule holds (depth <= 150, every 500th level, entries without children), " +
+		"the whole Find pool on the first 4 + 2 entries and a moving window of it on the others, writers on walk roots up to 40 levels high and on everything up to 2 levels high within 1 MiB of output, 400 types, 8000 entries beside the children; " +
+		"a panic in any call names receiver type, method, argument and entry path; " +
 		"also yang.Parse alone on every text. Streams in order: corpus/C01 (crash witnesses of DESIGN section 8), every .yang file and every YANG literal of " +
 		"pkg/yang/*_test.go alone / as written groups / in pairs, grammar-aware mutation of generated sets and of those texts (incl. numeric boundary arguments " +
 		"combined with range/length restrictions and typedef chains, texts that Modules.Parse rejects late after typedef-bearing statements, submodules included by a module they do not belong to or whose owner is " +
@@ -672,7 +683,13 @@ func main() {
 		"cycles among modules of length 1-4 x revision statements on all / none / some members x includes with / without revision-date (also one asking for an absent revision) x look-ups that " +
 		"fail in the owner or inside the cycle (unknown grouping, grouping / typedef / identity of the owner or of the last member used from inside, unknown typedef, unknown identity base, " +
 		"unknown extension prefix, names under the prefix of the next member) x IgnoreSubmoduleCircularDependencies off / on; the same two shapes are grammar operators (revision-twin, " +
-		"include-cycle) on generated sets and repository texts. A dead child (stack overflow, out of memory) is confirmed by running the history again alone in a fresh child. evaluations = histories run; distinct_nontrivial = distinct histories (by hash of names, texts, " +
+		"include-cycle) on generated sets and repository texts; the deterministic stream vi (devkinds.go): (a) deviate add / replace / delete of every property (type with typedefs that carry a default of " +
+		"every base, through a typedef chain, without default, builtin, unknown; default, two defaults, units, config, mandatory, min-/max-elements, unique, must, all at once) and not-supported, several deviate " +
+		"statements in one deviation, from the module itself and from an importing module, onto every kind of target (container, list, leaf, leaf-list, choice, case, implied case, anydata, anyxml, rpc, written and " +
+		"absent input / output, notification, action, nodes through uses and augment, key / mandatory / defaulted leaves, a missing node, the root); (b) the bracket shapes at every step position (after a step, " +
+		"a step of their own, in front, the whole argument) of the path argument of augment, deviation, uses-augment, refine, leafref path (absolute, relative, in a typedef), key, unique, must, when; the same shapes are in the " +
+		"pool of the path-argument grammar operator. A history that runs into its time bounds is reported by the child itself (phase, accessor call under way, entry, stack of the history's goroutine) and confirmed by a second run alone in a fresh child; " +
+		"past 24 such histories the rest of the run is skipped and counted (a change that makes a read-back accessor hang makes every history hang). A dead child (stack overflow, out of memory) is confirmed by running the history again alone in a fresh child. evaluations = histories run; distinct_nontrivial = distinct histories (by hash of names, texts, " +
 		"options) in which at least one text passes the generic parser, i.e. reaches the AST builder"
 	res.Write(f.Out)
 }
@@ -882,7 +899,7 @@ func (a *agg) evaluate(f *lib.Flags, d *driver, j job, h *History, v *Verdict, o
 			}
 			a.res.Disagreements = append(a.res.Disagreements, lib.Disagreement{Kind: kind, Input: inputSummary(h),
 				Go: short(v.Msg, 3000), SpecVerdict: "violates", Known: knownTag(h, v),
-				What:   fmt.Sprintf("%s: goyang %s on a %s history (%s): %s [history: %s]", clauseOf(v), v.Kind, h.Stream, site, short(firstLine(v.Msg), 420), short(h.What, 240)),
+				What:   fmt.Sprintf("%s: %s (%s) [goyang %s on a %s history: %s]", clauseOf(v), short(firstLine(v.Msg), 420), site, v.Kind, h.Stream, short(h.What, 240)),
 				Replay: h})
 		}
 		n, _ := a.res.Distribution["disagreements_total"].(int)
